@@ -381,6 +381,6 @@ CLAIM = {
             "never-over-risk inequalities then follow in real arithmetic from floor(xT)/T <= x and the discharged polynomial sign "
             "(1-3f)(1+f)-1 <= 0; no round/ceil primitive occurs on a quantity path and the only upward step in round_qty_for_live_mode "
             "is the zero->minimum-unit exception. Decimal helpers are exact. max_timeframe is interpreted on every singleton and pair "
-            "of the 17 timeframes and the full set; anchor_timeframe maps to strictly larger multiples. Acceptance clause: on_order_submission of the spot and the futures exchange model accepts, on a fresh account, every order of the closed cell cost <= balance (boundary witnesses included). Not decided: IEEE float rounding. The two bounds themselves (cost incl. fee <= capital, risk <= r %) are evaluated in exact arithmetic on the expression returned for each point of a witness grid covering both cells of the size cap, both sides, fee 0 and > 0 (R6).",
+            "of the 17 timeframes and the full set; anchor_timeframe maps to strictly larger multiples. Acceptance clause: on_order_submission of the spot and the futures exchange model accepts, on a fresh account, every order of the closed cell cost <= balance (boundary witnesses included). Not decided: IEEE float rounding. The two bounds themselves (cost incl. fee <= capital, risk <= r %) are evaluated in exact arithmetic on the expression returned for each point of a witness grid covering both cells of the size cap, both sides, fee 0 and > 0 (R6). max_timeframe is also interpreted on both orders of every pair and on every ordered triple of six timeframes.",
     "note": "Trusted: interpreter semantics; floor / 10**p kept as opaque atoms; real arithmetic.",
 }
